@@ -107,6 +107,8 @@ where
         for<'a> TransposeFrom<&'a BitDecomposed<Replicated<Boolean, B>>, Error = LengthError>,
     DZKPUpgraded<C>: ShardedContext,
 {
+    #[cfg(feature = "ipa-verif")]
+    crate::verif_obs::emit("hybrid:input", ctx.role() as u64, u64::from(u32::from(ctx.shard_id())), input_rows.len() as u64);
     if input_rows.is_empty() {
         return Ok(vec![Replicated::ZERO; B]);
     }
@@ -125,9 +127,15 @@ where
         .instrument(info_span!("shuffle_inputs"))
         .await?;
 
+    #[cfg(feature = "ipa-verif")]
+    crate::verif_obs::emit("hybrid:shuffled", ctx.role() as u64, u64::from(u32::from(ctx.shard_id())), shuffled_input_rows.len() as u64);
     let sharded_reports = compute_prf_and_reshard(ctx.clone(), shuffled_input_rows).await?;
+    #[cfg(feature = "ipa-verif")]
+    crate::verif_obs::emit("hybrid:resharded", ctx.role() as u64, u64::from(u32::from(ctx.shard_id())), sharded_reports.len() as u64);
 
     let aggregated_reports = aggregate_reports::<BK, V, C>(ctx.clone(), sharded_reports).await?;
+    #[cfg(feature = "ipa-verif")]
+    crate::verif_obs::emit("hybrid:aggregated", ctx.role() as u64, u64::from(u32::from(ctx.shard_id())), aggregated_reports.len() as u64);
 
     let histogram = breakdown_reveal_aggregation::<C, BK, V, HV, B>(
         ctx.narrow(&Step::Aggregate),
